@@ -33,6 +33,9 @@ func (s *vcSink) ConsumeLogs(ctx context.Context, ld plog.Logs) error {
 	key := "-"
 	if len(vs) > 0 {
 		key = strings.Join(vs, ".")
+		if key == "" {
+			key = "<empty>" // the empty value is a group of its own, different from an absent header
+		}
 	}
 	var ids []string
 	for i := 0; i < ld.ResourceLogs().Len(); i++ {
